@@ -817,4 +817,55 @@ VP_RANDOM (samplers, 500000, 5000000, "solidSphereRand / hollowSphereRand / gaus
 VP_LABELS (samplers, "V2", "V3", "V4", "float", "double", "Rand32", "Rand48")
 VP_REQUIRE_LABELS (samplers, "V2", "V3", "V4", "float", "double", "Rand32", "Rand48")
 
+// nextf(a,b) with bounds of opposite sign and magnitude in [max/2, max]: b - a is not representable, the result
+// a(1-f) + bf still is (both terms are bounded by |a| and |b| and have opposite signs).
+template <class R, class T> static void wide_case (vp::Ctx& c, const char* rn, unsigned long seed, int skip, T a, T b)
+{
+    R r (seed);
+    for (int i = 0; i < skip; ++i)
+        r.nexti ();
+    const quad eps = FInfo<T>::eps ();
+    for (int d = 0; d < 8; ++d)
+    {
+        R    copy = r;
+        quad f    = (quad) copy.nextf ();
+        T    iv   = r.nextf (a, b);
+        VP_REQUIRE (c, std::isfinite (iv), "nextf-wide-nonfinite", rn << " seed " << seed << " skip " << skip << " draw " << d << ": nextf(" << a << "," << b << ") = " << iv << " with f = " << (double) f);
+        quad lo = std::min (a, b), hi = std::max (a, b), M = std::max (std::fabs (a), std::fabs (b));
+        VP_REQUIRE (c, (quad) iv >= lo - 2 * eps * M && (quad) iv <= hi + 2 * eps * M, "nextf-wide-interval", rn << " seed " << seed << " skip " << skip << " draw " << d << ": nextf(" << a << "," << b << ") = " << iv << " outside the interval by more than 2 eps max(|a|,|b|)");
+        quad want = (quad) a * (1 - f) + (quad) b * f;
+        quad bound = 2 * eps * (qabs ((quad) a) * (1 - f) + qabs ((quad) b) * f) + (quad) std::numeric_limits<T>::denorm_min ();
+        VP_REQUIRE (c, qabs ((quad) iv - want) <= bound, "nextf-wide-value", rn << " seed " << seed << " skip " << skip << " draw " << d << ": nextf(" << a << "," << b << ") = " << iv << " expected a(1-f)+bf = " << qstr (want) << " with f = " << (double) f);
+        VP_REQUIRE (c, r.nexti () == copy.nexti (), "nextf-wide-state", rn << ": nextf(a,b) and nextf() leave different generator states");
+    }
+}
+
+VP_RANDOM (nextf_wide_intervals, 200000, 2000000, "Rand48::nextf(a,b) (double) and Rand32::nextf(a,b) (float) with a and b of opposite sign and |a|,|b| = max * k/2^24, k in [2^23, 2^24] (so in [max/2, max], incl. exactly +-max; b - a overflows, the interval does not), either order, from a generated seed after 0..1000 skipped draws, 8 consecutive draws: result finite, inside [min,max] +- 2 eps max(|a|,|b|), within 2 eps of a(1-f)+bf where f is nextf() of a copy of the generator, and the generator advances exactly as nextf() does; non-trivial = always")
+{
+    vp::Src&      s    = c.s;
+    unsigned long seed = gen_seed (s);
+    int           skip = s.coin () ? 0 : (int) s.below (1000);
+    int           rg   = (int) s.below (2);
+    unsigned      ka   = s.chance (8) ? (1u << 24) : (1u << 23) + (unsigned) s.below ((1u << 23) + 1);
+    unsigned      kb   = s.chance (8) ? (1u << 24) : (1u << 23) + (unsigned) s.below ((1u << 23) + 1);
+    bool          neg  = s.coin ();
+    VP_NOTE (c, (rg ? "Rand48" : "Rand32") << " seed 0x" << std::hex << seed << std::dec << " skip " << skip << " a = " << (neg ? "-" : "+") << "max*" << ka << "/2^24 b = " << (neg ? "+" : "-") << "max*" << kb << "/2^24");
+    c.label (rg ? 0 : 1);
+    c.label (neg ? 2 : 3);
+    if (ka == (1u << 24) || kb == (1u << 24)) c.label (4);
+    if (rg)
+    {
+        double a = std::numeric_limits<double>::max () * ((double) ka / 16777216.0), b = std::numeric_limits<double>::max () * ((double) kb / 16777216.0);
+        wide_case<IM::Rand48, double> (c, "Rand48", seed, skip, neg ? -a : a, neg ? b : -b);
+    }
+    else
+    {
+        float a = std::numeric_limits<float>::max () * ((float) ka / 16777216.0f), b = std::numeric_limits<float>::max () * ((float) kb / 16777216.0f);
+        wide_case<IM::Rand32, float> (c, "Rand32", seed, skip, neg ? -a : a, neg ? b : -b);
+    }
+    c.nt ();
+}
+VP_LABELS (nextf_wide_intervals, "Rand48", "Rand32", "a_negative", "a_positive", "bound_is_max")
+VP_REQUIRE_LABELS (nextf_wide_intervals, "Rand48", "Rand32", "a_negative", "a_positive", "bound_is_max")
+
 VP_MAIN ("C18")
